@@ -55,3 +55,29 @@ Definition mapping_ok (local : N) (shards : list shard) (m : amap) : bool :=
 Definition spec_ok (local : N) (shards : list shard) (data : N -> list N) (ops : list op)
            (m : amap) (qs : list qres) : bool :=
   mapping_ok local shards m && all2 (res_ok data shards) ops qs.
+
+(* ---------- statements with several sources ---------- *)
+
+(* per source: local shards + remote groups (node, shards) partition the source's shards;
+   no node appears twice (a source is mapped once); every shard sits on an owner; shards the
+   coordinator owns are local *)
+Definition mmapping_ok (local : N) (view : list shard) (lsh : list shard) (groups : amap) : bool :=
+  list_eqb (sortN (map sid (lsh ++ flat groups))) (sortN (map sid view))
+  && nodupb (keys groups) && negb (memN local (keys groups))
+  && forallb (fun s => owned_by s local) lsh
+  && forallb (fun e => forallb (fun s => owned_by s (fst e)) (snd e)) groups
+  && forallb (fun s => implb (owned_by s local) (memN (sid s) (map sid lsh))) view.
+
+(* when no node fails, the requests of one operation together with the local shards read
+   every shard of the source exactly once *)
+Definition seg_ok (lsh : list shard) (view : list shard) (seg : list key) : bool :=
+  list_eqb (sortN (flat_map snd seg ++ map sid lsh)) (sortN (map sid view)).
+
+Definition groups_of (gs : list gstate) : amap := map (fun gd => (g_node (fst gd), g_shards (fst gd))) gs.
+
+Definition mspec_ok (local : N) (view : N -> list shard) (data : N -> list N) (srcs : list N)
+           (ops : list (N * op)) (lm : list (N * list shard)) (rm : list (N * amap))
+           (res : list (qres * list key)) (quiet : bool) : bool :=
+  forallb (fun src => mmapping_ok local (view src) (assoc_get [] lm src) (assoc_get [] rm src)) srcs
+  && all2 (fun o r => res_ok data (view (fst o)) (snd o) (fst r)) ops res
+  && (negb quiet || all2 (fun o r => seg_ok (assoc_get [] lm (fst o)) (view (fst o)) (snd r)) ops res).
